@@ -15,7 +15,7 @@ one() {
   out=$(/verif/bin/restcheck -repo "$d" -property all -no-evidence 2>&1)
   nsum=$(echo "$out" | grep -cE '^C[0-9]+: [0-9]+ obligations')
   rules=$(echo "$out" | grep -E '^  (VIOLATED|UNDECIDED)' | awk '{print $2}' | tr -d ':' | sort | uniq -c | awk '{print $2"x"$1}' | paste -sd' ')
-  [ "$nsum" -ne 17 ] && rules="CRASH($nsum/17) $rules"
+  [ "$nsum" -ne 19 ] && rules="CRASH($nsum/19) $rules"
   echo "$f ($n): ${rules:-NONE}"
   rm -rf "$d"
 }
